@@ -188,7 +188,11 @@ theorem lparen_qubits (qs : List Qubit) (rest : List Token) :
     tok .lParenthesis (qubitsToks qs ++ .newLine :: rest) = .err := by
   cases qs with
   | nil => simp [qubitsToks, tok]
-  | cons q qs => cases q <;> simp [qubitsToks, qubitToks, tok, identTok, phName]
+  | cons q qs =>
+    cases q with
+    | fixed n => simp [qubitsToks, qubitToks, tok]
+    | placeholder k => simp [qubitsToks, qubitToks, tok, phName]
+    | «variable» s => simp [qubitsToks, qubitToks, tok, (nameTok_not_punct s).2.1]
 
 /-- `parse_parameters` (the optional parenthesised expression list) on a printed parameter list followed by
 something that is not an opening parenthesis -/
@@ -200,9 +204,12 @@ theorem parseParameters_toks (F : NumFmt) (pe : Parser PExpr) (ps : List PExpr) 
   | nil => simp [parseParameters, paramsToks, opt, delimited, Parser.bind, hrest, Parser.pure]
   | cons e es =>
     have hs := separatedList0_exprs F pe e es (.rParenthesis :: rest) hpe rfl rfl
+    simp only [List.map_cons] at hs
     simp only [parseParameters, paramsToks, List.isEmpty_cons, Bool.false_eq_true, if_false, bind_eq, Parser.bind,
-      opt, delimited, tok, List.cons_append, List.append_assoc, List.singleton_append, if_true, hs, pure_eq,
+      opt, delimited, List.cons_append, List.append_assoc, List.singleton_append, pure_eq,
       Parser.pure]
+    simp only [tok, if_true]
+    erw [hs]
     simp
 
 theorem length_sepBy_ge (sep : List Token) (x : List Token) (xs : List (List Token)) (hx : x ∈ xs) :
@@ -247,7 +254,8 @@ theorem rt_gate (F : NumFmt) (d : Nat) (g : Gate) (hp : parsedInstr (.gate g) = 
       (ms.map modifierTok ++ identTok name :: (paramsToks F ps ++ (qubitsToks qs ++ .newLine :: rest))) =
         .ok (.gate ⟨name, ps, qs, ms⟩) (.newLine :: rest) := by
     intro rest
-    simp only [parseGate, bind_eq, Parser.bind, many0_modifiers, identTok, tokIdentifier, str_toList,
+    simp only [parseGate, bind_eq, Parser.bind, many0_modifiers]
+    simp only [identTok, tokIdentifier, str_toList,
       parseParameters_toks F _ ps _ hpe (lparen_qubits qs rest),
       many0_parseQubit qs hp.2 _ (show notQubit (.newLine :: rest) = true from rfl), pure_eq, Parser.pure]
   intro rest
